@@ -126,9 +126,17 @@ func execC15(c c15Case) (res c15Result) {
 		mixedConcurrent, singleStageDelay, delayed, blockedTicks, plainAccepts  int
 	)
 
-	// cls names the failing input class: every misbehaviour seen while a
-	// one-stage pipeline holds an item accepted with delay > 0 is that class.
+	// cls names the failing input class: a progress/latency misbehaviour (an item
+	// that does not count down, advance or leave when the model says it must) seen
+	// while a one-stage pipeline holds an item accepted with delay > 0 is that
+	// class. Structural failures (lane choice, collisions, sink misuse, JSON)
+	// keep their own signature.
 	cls := func(base string) string {
+		switch base {
+		case "stranded", "model-divergence", "ready-item-not-emitted", "latency", "never-left", "tick-return":
+		default:
+			return base
+		}
 		if c.Stages == 1 {
 			for _, it := range model {
 				if it.Delay > 0 {
